@@ -19,36 +19,38 @@ pub fn nested(s: &str) -> bool {
     st.is_empty()
 }
 
-/// Clause 2 oracle, from the OUTPUT TEXT ALONE (independent of the formatter's counters):
-/// a scope is "broken over several lines" iff its opener is directly followed by a line break;
-/// every '\n' must be followed by exactly 4 spaces per broken scope that is still open, where a
-/// line that starts with the closer of a broken scope is written at the opener's depth, and an
-/// opening brace may keep its one separating space.  The text must end with all scopes closed.
+/// Clause 2 oracle, from the OUTPUT TEXT ALONE -- the same checker automaton as the Verus
+/// specification `run` / `indentation_ok` in units/U-FMT/lemmas.rs: a scope is "broken over
+/// several lines" iff its opener is directly followed by a line break; at the first non-space
+/// character after a line break the number of spaces must be 4 per open broken scope, where the
+/// closer of a broken scope is written at its opener's depth and an opening brace may keep its one
+/// separating space.  The text must end with all scopes closed (and a trailing break at depth 0).
 pub fn indentation_ok(out: &str) -> Result<(), String> {
-    let o: Vec<char> = out.chars().collect();
-    let mut st: Vec<bool> = vec![];
-    let mut i = 0;
-    while i < o.len() {
-        let c = o[i];
-        if opener(c) {
-            st.push(i + 1 < o.len() && o[i + 1] == '\n');
-        } else if closer(c) {
-            st.pop();
-        } else if c == '\n' {
-            let mut j = i + 1;
-            while j < o.len() && o[j] == ' ' { j += 1; }
-            let mut spaces = j - (i + 1);
-            // an opening brace keeps its one separating space
-            if j < o.len() && o[j] == '{' && spaces % 4 == 1 { spaces -= 1; }
-            let mut depth = st.iter().filter(|b| **b).count();
-            if j < o.len() && closer(o[j]) && st.last() == Some(&true) { depth -= 1; }
-            if spaces != 4 * depth {
-                return Err(format!("line break at output offset {i}: {spaces} spaces, expected {}", 4 * depth));
-            }
+    let mut s: Vec<bool> = vec![];
+    let mut ind: i64 = -1;
+    let mut lo = false;
+    for (i, c) in out.chars().enumerate() {
+        if c == ' ' {
+            if ind >= 0 { ind += 1; }
+            lo = false;
+            continue;
         }
-        i += 1;
+        let top = s.last().copied().unwrap_or(false);
+        let cnt = s.iter().filter(|b| **b).count() as i64;
+        let d = cnt - if closer(c) && top { 1 } else { 0 };
+        let good = ind < 0 || ind == 4 * d || (c == '{' && ind == 4 * d + 1);
+        if !good {
+            return Err(format!("before output offset {i} ({c:?}): {ind} spaces after the line break, expected {}", 4 * d));
+        }
+        if c == '\n' {
+            if lo { if let Some(l) = s.last_mut() { *l = true; } }
+            ind = 0; lo = false;
+        } else if opener(c) { s.push(false); ind = -1; lo = true; }
+        else if closer(c) { s.pop(); ind = -1; lo = false; }
+        else { ind = -1; lo = false; }
     }
-    if !st.is_empty() { return Err("text ends with open scopes".into()); }
+    if !s.is_empty() { return Err("text ends with open scopes".into()); }
+    if !(ind == -1 || ind == 0) { return Err(format!("text ends with {ind} trailing spaces after a line break")); }
     Ok(())
 }
 
@@ -66,7 +68,7 @@ pub fn check(input: &str) -> Vec<String> {
             if strip_ws(&out) != strip_ws(input) {
                 v.push("clause1: output and input differ after removing whitespace".to_string());
             }
-            if nested(input) && !input.chars().any(|c| c.is_whitespace()) {
+            if nested(input) && !input.chars().any(|c| c == ' ' || c == '\n') {
                 if let Err(e) = indentation_ok(&out) { v.push(format!("clause2: {e}")); }
             }
         }
